@@ -2,6 +2,7 @@ package main
 
 import (
 	"fmt"
+	"math"
 	"math/big"
 	"math/rand"
 	"sort"
@@ -113,6 +114,7 @@ type aval struct {
 	z3    *big.Int
 	bs    []byte
 	b     bool
+	w     int // float: 32 | 64
 	elems []*aval
 	pairs [][2]*aval
 }
@@ -122,7 +124,44 @@ var aNull = &aval{kind: "null"}
 func aInt(z *big.Int) *aval   { return &aval{kind: "int", z: new(big.Int).Set(z)} }
 func aInt64(x int64) *aval    { return &aval{kind: "int", z: big.NewInt(x)} }
 func aBytes(b []byte) *aval   { return &aval{kind: "bytes", bs: append([]byte{}, b...)} }
-func aFloat(bits uint64) *aval { return &aval{kind: "float", z: new(big.Int).SetUint64(bits)} }
+func aFloat32(bits uint64) *aval { return &aval{kind: "float", z: new(big.Int).SetUint64(bits), w: 32} }
+func aFloat64(bits uint64) *aval { return &aval{kind: "float", z: new(big.Int).SetUint64(bits), w: 64} }
+
+// isNaN: the float value (of width w) is a NaN
+func (a *aval) isNaN() bool {
+	b := a.z.Uint64()
+	if a.w == 32 {
+		return b&0x7f800000 == 0x7f800000 && b&0x007fffff != 0
+	}
+	return b&0x7ff0000000000000 == 0x7ff0000000000000 && b&0x000fffffffffffff != 0
+}
+
+// nanCanon: every NaN replaced by one canonical NaN - the equality of the round-trip predicate is "same bits, or both NaN"
+// (the payload of a NaN is not a value the codecs promise to keep across float32 <-> float64 conversions).
+func (a *aval) nanCanon() *aval {
+	switch a.kind {
+	case "float":
+		if a.isNaN() {
+			if a.w == 32 {
+				return aFloat32(0x7fc00000)
+			}
+			return aFloat64(0x7ff8000000000000)
+		}
+	case "list", "tuple", "udt":
+		r := &aval{kind: a.kind, elems: []*aval{}}
+		for _, e := range a.elems {
+			r.elems = append(r.elems, e.nanCanon())
+		}
+		return r
+	case "map":
+		r := &aval{kind: "map"}
+		for _, p := range a.pairs {
+			r.pairs = append(r.pairs, [2]*aval{p[0].nanCanon(), p[1].nanCanon()})
+		}
+		return r
+	}
+	return a
+}
 
 func zs(z *big.Int) string {
 	if z.Sign() < 0 {
@@ -199,7 +238,7 @@ func (a *aval) canon() *aval {
 	return a
 }
 
-func aEqual(a, b *aval) bool { return a.canon().coq() == b.canon().coq() }
+func aEqual(a, b *aval) bool { return a.nanCanon().canon().coq() == b.nanCanon().canon().coq() }
 
 // hasMultiMap: does encoding this value iterate a Go map with two or more entries (byte order then unspecified)?
 func (a *aval) size() int {
@@ -343,9 +382,13 @@ func (g *gen) someBytes(text bool, ascii bool) []byte {
 	return b
 }
 
-var floatBits32 = []uint64{0, 0x80000000, 0x3f800000, 0xbf800000, 0x7f800000, 0xff800000, 0x7fc00000, 0x7fc00001, 0xffc00000, 0x00000001, 0x007fffff, 0x00800000, 0x7f7fffff}
-var floatBits64 = []uint64{0, 0x8000000000000000, 0x3ff0000000000000, 0xbff0000000000000, 0x7ff0000000000000, 0xfff0000000000000, 0x7ff8000000000000,
-	0x7ff8000000000001, 0xfff8000000000000, 1, 0x000fffffffffffff, 0x0010000000000000, 0x7fefffffffffffff}
+// +-0, +-1, +-Inf, quiet NaNs (default, with a payload, negative), a signalling NaN, smallest / largest subnormal, smallest normal, largest finite;
+// NaN and the infinities come first and last so that every tier keeps them for every representation
+var floatBits32 = []uint64{0x7fc00000, 0x7f800000, 0, 0x80000000, 0x3f800000, 0xbf800000, 0x7fc00001, 0xffc00000, 0x7fa00000, 0x7fe00000, 0x00000001, 0x007fffff, 0x00800000, 0x7f7fffff,
+	0x3fc00000, 0xff800000, 0xffe00000}
+var floatBits64 = []uint64{0x7ff8000000000000, 0x7ff0000000000000, 0, 0x8000000000000000, 0x3ff0000000000000, 0xbff0000000000000,
+	0x7ff8000000000001, 0xfff8000000000000, 0x7ff4000000000000, 0x7ffc000000000000, 1, 0x000fffffffffffff, 0x0010000000000000, 0x7fefffffffffffff,
+	0x3ff8000000000000, 0x47efffffe0000000, 0x36a0000000000000, 0xfff0000000000000, 0xfffc000000000000}
 
 // value generates an abstract non-null value of scalar type s
 func (g *gen) scalarValue(s string) *aval {
@@ -380,14 +423,17 @@ func (g *gen) scalarValue(s string) *aval {
 		return &aval{kind: "bool", b: g.pick(2) == 0}
 	case "SFloat":
 		if g.pick(2) == 0 {
-			return aFloat(floatBits32[g.pick(len(floatBits32))])
+			return aFloat32(floatBits32[g.pick(len(floatBits32))])
 		}
-		return aFloat(uint64(g.r.Uint32()))
+		return aFloat32(uint64(g.r.Uint32()))
 	case "SDouble":
 		if g.pick(2) == 0 {
-			return aFloat(floatBits64[g.pick(len(floatBits64))])
+			return aFloat64(floatBits64[g.pick(len(floatBits64))])
 		}
-		return aFloat(g.r.Uint64())
+		if g.pick(3) == 0 {
+			return aFloat64(math.Float64bits(float64(math.Float32frombits(g.r.Uint32())))) // a double that is a float32 number
+		}
+		return aFloat64(g.r.Uint64())
 	case "SAscii":
 		return aBytes(g.someBytes(true, true))
 	case "SVarchar":
